@@ -527,12 +527,19 @@ def monitor_patch_obj(ctx: fw.Ctx, o: dict) -> None:
 
     # ---- completeness: no fault, no foreign write -> the server object is the merge patch applied, then the transformations
     raising = 'raise' in fn_kinds
+    undisturbed = not any(x.slipped or x.injected for x in log)
+    if ok and undisturbed and not desc.get('deleting') and any(x.status == 422 for x in log):
+        ctx.fail('a conflict (422) although nobody else wrote and nothing was injected: what was accumulated did not reach the server in this cycle',
+                 case, statuses, sig='spurious-conflict')
     if ok and clean and not any(x.slipped for x in log) and not raising and not desc.get('deleting'):
         exp = canon.merge7386(o['obj0'], content)
-        for f in o['fns']:
-            f(exp)
+        try:
+            for f in o['fns']:
+                f(exp)
+        except (TypeError, AttributeError, KeyError, ValueError):
+            exp = None          # the transformation itself fails on the merged body: nothing to compare with
         final = o['api'].get(o['kind'], NS, NAME)
-        if norm(final) != norm(exp):
+        if exp is not None and norm(final) != norm(exp):
             ctx.fail('after an undisturbed patch_obj the server object is not (merge-patch, then transformations) applied to the object',
                      case, {'server': norm(final), 'expected': norm(exp), 'patch': content, 'sent': merged_sent}, sig='incomplete')
         ctx.count('fn_monitor', 'complete-checked')
@@ -541,7 +548,7 @@ def monitor_patch_obj(ctx: fw.Ctx, o: dict) -> None:
     idem = fn_kinds and all(k in ('block', 'allow', 'listedit', 'statusedit') for k in fn_kinds)
     foreign_kind = desc['slip'][1] if desc.get('slip') else None
     injected_other = any(x.injected and not (x.injected == '422' and x.ctype == CT_JSON) for x in log)
-    if idem and ok and not injected_other and foreign_kind in (None, 'edit') and not desc.get('deleting'):
+    if idem and ok and not injected_other and foreign_kind in (None, 'edit') and not desc.get('deleting') and not desc.get('random'):
         final = o['api'].get(o['kind'], NS, NAME)
         if remaining is not None:
             final = next_cycle(o, remaining)
@@ -763,6 +770,28 @@ def patch_obj_descs() -> list[dict]:
     return out + extra
 
 
+def random_descs(ctx: fw.Ctx, n: int) -> list[dict]:
+    """Thorough tier: random merge-patch contents (keys with '/', '~', '', non-ASCII; nulls; nested objects and lists) and
+    random fns / faults / foreign writes on top of the exhaustive product."""
+    from kv import gen as g
+    G = g.Gen(ctx.rng)
+    r = ctx.rng
+    out = []
+    for _ in range(n):
+        content: dict[str, Any] = {}
+        if r.random() < 0.6:
+            content['spec'] = G.obj(2)
+        if r.random() < 0.6:
+            content['status'] = G.obj(2) if r.random() < 0.93 else None
+        if r.random() < 0.4:
+            content['metadata'] = {r.choice(['annotations', 'labels']): {r.choice(['a', 'b', 'keep', 'app']): r.choice(['v', 'w', None])}}
+        fn_kinds = r.sample(['block', 'allow', 'listedit', 'statusedit', 'append'], r.choice([0, 0, 1, 2]))
+        fault = (r.randrange(4), r.choice(['404', '422', '409', 'empty200'])) if r.random() < 0.3 else None
+        slip = (r.randrange(4), r.choice(['edit', 'edit', 'delete', 'recreate'])) if r.random() < 0.4 else None
+        out.append(case_desc('random', r.random() < 0.5, fault, slip, None, {'patch': content, 'fn_kinds': fn_kinds, 'random': True}))
+    return out
+
+
 def corpus_descs(ctx: fw.Ctx) -> list[dict]:
     out = []
     d = fw.ROOT / 'corpus' / 'C08'
@@ -806,7 +835,7 @@ def differential(ctx: fw.Ctx) -> None:
     try:
         cases: list[fw.Case] = []
         seen_terms: set[str] = set()
-        for desc in corpus_descs(ctx) + patch_obj_descs():
+        for desc in corpus_descs(ctx) + patch_obj_descs() + random_descs(ctx, ctx.scale(0, 4000)):
             if desc.get('fn') != 'patch_obj':
                 continue
             o = run_patch_obj(env, desc)
